@@ -103,7 +103,60 @@ class Check:
         M.warm()
 
     # ------------------------------------------------------------------ generation
+    # ---- exhaustive policy cells (thorough tier): the fault-free cross product named in the property's quantifier
+    CELL_DIMS: T.List[T.Tuple[str, T.List[T.Any]]] = [
+        ('sys', [None, '1.2.0', '2.5.0']),
+        ('version', [None, '>=2.0', '<2.0']),
+        ('subcfg', ['none', 'dir-both-provide', 'dir-variable-noprovide', 'dir-override-names', 'wrap-both-provide', 'wrap-nothing-provide', 'wrap-variable-noprovide', 'dir-broken-provide']),
+        ('wrap_mode', ['default', 'nofallback', 'nodownload', 'forcefallback', 'nopromote']),
+        ('fff', [[], ['foo'], ['foosub']]),
+        ('required', [True, False]),
+        ('fb', ['plain', 'fallback1', 'fallback2', 'fallback-empty', 'allow-true', 'allow-false']),
+    ]
+
+    @classmethod
+    def n_cells(cls) -> int:
+        n = 1
+        for _, vals in cls.CELL_DIMS:
+            n *= len(vals)
+        return n
+
+    def cell(self, k: int) -> T.Dict[str, T.Any]:
+        pick: T.Dict[str, T.Any] = {}
+        for name, vals in self.CELL_DIMS:
+            pick[name] = vals[k % len(vals)]
+            k //= len(vals)
+        w: T.Dict[str, T.Any] = {'kind': 'c10', 'sys': pick['sys'], 'net': {}, 'wrap_mode': pick['wrap_mode'], 'fff': pick['fff'], 'cmd': 'setup', 'cell': True}
+        sc = pick['subcfg']
+        if sc == 'none':
+            w['sub'] = None
+        else:
+            kind, prov, wp = sc.split('-')
+            sub: T.Dict[str, T.Any] = {'kind': 'dir' if kind == 'dir' else 'wrap', 'version': '3.0', 'provides': 'both' if prov == 'both' else prov if prov != 'broken' else 'both',
+                                       'configures': prov != 'broken', 'wrapfile': True,
+                                       'wrap': {'provide': {'provide': 'foo_dep', 'noprovide': None, 'names': 'names'}.get(wp, 'foo_dep')}}
+            if sub['kind'] == 'wrap':
+                sub['wrap'].update({'source': {'hash_ok': True, 'fallback_url': False, 'cache': 'none'}, 'upstream_has_buildfile': True, 'patch': None, 'diff': None})
+            w['sub'] = sub
+        c: T.Dict[str, T.Any] = {'version': pick['version'], 'required': pick['required']}
+        fb = pick['fb']
+        if fb == 'fallback1':
+            c['fallback'] = ['foosub']
+        elif fb == 'fallback2':
+            c['fallback'] = ['foosub', 'foo_dep']
+        elif fb == 'fallback-empty':
+            c['fallback'] = []
+        elif fb == 'allow-true':
+            c['allow_fallback'] = True
+        elif fb == 'allow-false':
+            c['allow_fallback'] = False
+        # a second, identical lookup checks "repeated lookups return the same dependency"
+        w['calls'] = [c, dict(c)]
+        return w
+
     def generate(self, rng: random.Random, tier: str, index: int) -> T.Dict[str, T.Any]:
+        if tier != 'quick' and index < self.n_cells():
+            return self.cell(index)
         w: T.Dict[str, T.Any] = {'kind': 'c10'}
         w['sys'] = rng.choice([None, None, '1.2.0', '2.5.0'])
         kind = rng.choice(['none', 'dir', 'wrap', 'wrap', 'wrap'])
@@ -425,6 +478,10 @@ class Check:
                     return R.violation('half-prepared-left', f'run {run_i}: the {st.sub_acq.stage} step failed but {os.path.relpath(subdir, root)} was left behind: '
                                        f'{sorted(os.listdir(subdir))}', f'half-prepared-left:{st.sub_acq.stage}', **base)
             # ---- policy: results of the dependency() calls
+            if exp == ['UNDETERMINED']:
+                add(probes, 'undetermined-world')
+                model_world = DR.world_after(model_world, st)
+                break
             if not is_download:
                 got: T.List[T.Any] = []
                 for m in DEP_RE.finditer(out):
